@@ -66,6 +66,25 @@ C06_IDIOMS = {
     "callback-writes-creator-local": Prog([Set("acc", Int(0)), Call("each3", Closure(["v"], Set("acc", Op("Add", Rd("acc"), Rd("v"))), Ret(Int(0)))),
                                            SetG("r", Rd("acc"))],
                                           ("each3", ["cb"], [Repeat("i", Int(3), Blk(Dyn(Rd("cb"), Rd("i")))), Ret(Int(0))])),
+    # captures in another order than the declarations (the list of open captured variables is kept sorted by slot), the
+    # creating function returns, other calls reuse its stack slots, then every closure is used
+    "capture-order-permuted": Prog([Set("fs", Call("mk")), Call("noise", Int(100), Int(101), Int(102)),
+                                    ForEach("", "", "f", Rd("fs"), Blk(Log(Dyn(Rd("f")))))],
+                                   ("mk", [], [Set("a", Int(11)), Set("b", Int(22)), Set("c", Int(33)), Set("fs", Table()),
+                                               C("AppendTable", [Closure([], Ret(Rd("a"))), Rd("fs")]),
+                                               C("AppendTable", [Closure([], Ret(Rd("c"))), Rd("fs")]),
+                                               C("AppendTable", [Closure([], Set("b", Op("Add", Rd("b"), Int(1))), Ret(Rd("b"))), Rd("fs")]),
+                                               Ret(Rd("fs"))]),
+                                   ("noise", ["p", "q", "r"], [Set("s", Op("Add", Rd("p"), Rd("q"))), Set("t", Int(100)), Set("u", Int(100)),
+                                                               Ret(Rd("s"))])),
+    # a callee captures its parameters (last declared parameter in the lowest slot) while a local of the caller is captured too
+    "caller-capture-survives-callee-captures": Prog([Set("g", Call("outer")), Call("noise", Int(100), Int(101), Int(102)), SetG("r", Dyn(Rd("g")))],
+                                                    ("outer", [], [Set("x", Int(42)), Set("f", Closure([], Ret(Rd("x")))),
+                                                                   Set("h", Call("inner", Int(10), Int(20))), SetG("hv", Dyn(Rd("h"))),
+                                                                   Ret(Rd("f"))]),
+                                                    ("inner", ["p", "q"], [Ret(Closure([], Ret(Op("Sub", Rd("p"), Rd("q")))))]),
+                                                    ("noise", ["p", "q", "r"], [Set("s", Op("Add", Rd("p"), Rd("q"))), Set("t", Int(100)),
+                                                                                Set("u", Int(100)), Ret(Rd("s"))])),
     # closure capturing a parameter and a local of a function called with arguments, early return in between
     "capture-param-early-return": Prog([Set("k", Int(9)), Set("f", Call("mk", Int(4), Int(6))), SetG("r", Dyn(Rd("f"), Int(1)))],
                                        ("mk", ["a", "b"], [Set("s", Op("Add", Rd("a"), Rd("b"))),
